@@ -7,6 +7,7 @@ import (
 	"io"
 	"math/big"
 	"math/rand"
+	"net"
 	"net/http"
 	"net/http/httptest"
 	"os"
@@ -286,11 +287,18 @@ func C18(run *core.Run) {
 					run.Report("C18:block-json", fmt.Sprintf("a block returned as JSON does not parse back: %v", err), nil)
 					continue
 				}
-				x, _ := back.AccountBlock.Serialize()
-				y, _ := b.AccountBlock.Serialize()
-				if !bytes.Equal(x, y) || back.AccountBlock.ComputeHash() != b.Hash {
-					run.Report("C18:block-json", fmt.Sprintf("block %v changes when its JSON is fed back", b.Hash), nil)
-				}
+				func() {
+					defer func() {
+						if r := recover(); r != nil {
+							run.Report("C18:block-json-parsed-block-unusable", fmt.Sprintf("block %v (type %d, %d descendants) parsed back from its own JSON cannot be serialised or hashed: %v", b.Hash, b.BlockType, len(b.DescendantBlocks), r), map[string]interface{}{"kind": "json-round-trip", "json": string(js)})
+						}
+					}()
+					x, _ := back.AccountBlock.Serialize()
+					y, _ := b.AccountBlock.Serialize()
+					if !bytes.Equal(x, y) || back.AccountBlock.ComputeHash() != b.Hash || len(back.DescendantBlocks) != len(b.DescendantBlocks) {
+						run.Report("C18:block-json", fmt.Sprintf("block %v changes when its JSON is fed back", b.Hash), map[string]interface{}{"kind": "json-round-trip", "json": string(js)})
+					}
+				}()
 				blocks++
 			}
 		}
@@ -403,6 +411,18 @@ var rpcHostile = []string{
 	`{"jsonrpc":"2.0","id":1,"method":"ledger.getMomentumsByHeight","params":[1,`,
 	`[]`,
 	`[1,2,3]`,
+	`null`,
+	"  null \n",
+	`true`,
+	`0`,
+	`"x"`,
+	`[null]`,
+	`[null,null,{"jsonrpc":"2.0","id":1,"method":"ledger.getFrontierMomentum","params":[]}]`,
+	`[[]]`,
+	`{}`,
+	`{"jsonrpc":"2.0"}`,
+	`{"id":null,"method":null,"params":null}`,
+	`{"jsonrpc":"2.0","id":1,"method":"ledger.getFrontierMomentum","params":null}`,
 	`[` + strings.Repeat(`{"jsonrpc":"2.0","id":1,"method":"ledger.getFrontierMomentum","params":[]},`, 2000) + `{"jsonrpc":"2.0","id":2,"method":"ledger.getFrontierMomentum","params":[]}]`,
 	strings.Repeat("[", 100000),
 	strings.Repeat(`{"a":`, 50000),
@@ -497,6 +517,43 @@ func c18ServerChild() {
 		_, ok, err := post(`{"jsonrpc":"2.0","id":7,"method":"ledger.getFrontierMomentum","params":[]}`)
 		if err != nil || !strings.Contains(ok, `"height"`) {
 			fmt.Printf("BAD-ANSWER after request %d a valid request is answered with %.100s (%v)\n", i, ok, err)
+		}
+	}
+	// the same requests over a streaming transport (the IPC listener): there a panic in the dispatcher is not recovered by net/http
+	sock := fmt.Sprintf("%s/rpc-%d.sock", os.TempDir(), os.Getpid())
+	os.Remove(sock)
+	l, err := net.Listen("unix", sock)
+	if err != nil {
+		fmt.Println("cannot listen on a unix socket:", err)
+		os.Exit(3)
+	}
+	defer os.Remove(sock)
+	go srv.ServeListener(l)
+	stream := func(body string, wait time.Duration) (string, error) {
+		c, err := net.DialTimeout("unix", sock, 3*time.Second)
+		if err != nil {
+			return "", err
+		}
+		defer c.Close()
+		c.SetDeadline(time.Now().Add(wait))
+		if _, err := c.Write([]byte(body + "\n")); err != nil {
+			return "", nil // the server closed on us: fine
+		}
+		buf := make([]byte, 1<<16)
+		n, _ := c.Read(buf)
+		return string(buf[:n]), nil
+	}
+	for i, q := range reqs {
+		if len(q) > 1<<20 {
+			continue
+		}
+		fmt.Printf("REQUEST %d (stream)\n", i)
+		if _, err := stream(q, 1500*time.Millisecond); err != nil {
+			fmt.Printf("BAD-ANSWER stream request %d: cannot connect: %v\n", i, err)
+		}
+		ok, err := stream(`{"jsonrpc":"2.0","id":7,"method":"ledger.getFrontierMomentum","params":[]}`, 5*time.Second)
+		if err != nil || !strings.Contains(ok, `"height"`) {
+			fmt.Printf("BAD-ANSWER after stream request %d a valid request is answered with %.100s (%v)\n", i, ok, err)
 		}
 	}
 	fmt.Println("SERVER-SURVIVED")
